@@ -1,0 +1,10 @@
+//go:build verif
+
+// Contracts for the govc verifier (/verif). Comment-only: with the "verif" tag off this file is
+// not part of any build; with it on it adds nothing but the package clause.
+package hh
+
+//@ func unmarshalWrite
+//@   props C04
+//@   loop 1 invariant lenwf: len(b) >= 0
+//@   loop 1 decreases len(b)
